@@ -313,11 +313,16 @@ def known_crash_between_renames(body):
             and 'no data file' in (body.get('message') or ''))
 
 
-def h_pack_fault(f: int) -> None:
+def h_pack_fault(f: int, prior: bool = False) -> None:
     """The f-th file-system operation of the pack fails: database unchanged and usable, .pack removed."""
     assume(f >= 0)
     with untraced():
         env, _, g, s, pre, stop = _setup(False)
+        if prior:
+            # an earlier pack has left its .old file behind (the default): this pack starts by removing it
+            first = (int.from_bytes(pre.txns[2].tid, 'big') + 5).to_bytes(8, 'big')
+            _pack(s, first)
+            pre = GR.model_from_storage(s)
         s._file.flush()
         before = bytes(env.fs.content(DATA))
         fs = env.fs
@@ -389,7 +394,7 @@ HARNESSES = [
                     'flag reset, .pack removed); a later pack succeeds',
             symbolic='f over all file-system operations of the pack', bounds='one fault', oracle='C07 differential oracle + follow-up commit/pack/reopen',
             code=['FileStoragePacker.pack (OSError paths, close_files_remove)', 'FileStorage.pack (finally)'],
-            quick=dict(timeout=150), thorough=dict(timeout=600)),
+            quick=dict(timeout=150, shards=shards(prior=[False, True])), thorough=dict(timeout=600, shards=shards(prior=[False, True]))),
 ]
 
 MANIFEST = dict(
